@@ -242,7 +242,10 @@ def main():
             sys.modules.setdefault('replay', sys.modules['__main__'])
             import glob
             for p_ in sorted(glob.glob(os.path.join(HERE, 'replay_*.py'))):
-                importlib.import_module(os.path.basename(p_)[:-3])
+                try:
+                    importlib.import_module(os.path.basename(p_)[:-3])
+                except Exception as e_:
+                    print('replay plug-in %s failed to import: %r' % (p_, e_), file=sys.stderr)
         for m in list(sys.modules.values()):
             al = getattr(m, 'REPLAYERS_ALIAS', None)
             if al and target in al:
